@@ -27,9 +27,24 @@ Definition preceded_by (P Q : event -> Prop) (tr : trace) : Prop :=
 
 Definition none_of (P : event -> Prop) (tr : trace) : Prop := forall e, In e tr -> ~ P e.
 
+(* The unknown-host callback in force, as a function of its arguments: a device profile that
+   overrides it (iosxe, iosxr, csr) answers True to everything, else the caller's, else the
+   default, which answers False to everything. *)
+Definition callback_in_force (c : ssh_cfg) (o : ssh_oracle) : hsel -> key -> bool :=
+  if c_profile_cb c then (fun _ _ => true)
+  else if c_user_cb c then o_cb o
+  else (fun _ _ => false).
+
+(* "the callback accepts it": the verdict that counts is the one on (the host name that was
+   dialled, the fingerprint of the key the server presented) — not the verdict the callback
+   would give on a stored key, on the "[host]:port" name, or on anything else. *)
+Definition callback_accepts (c : ssh_cfg) (o : ssh_oracle) : bool :=
+  callback_in_force c o HHost (o_server_key o).
+
 (* What the property sentence allows as a reason to trust the key [k] the server presented:
    it is in the known_hosts FILE under "host" or "[host]:port" (and no key is pinned: a pin
-   replaces known_hosts), it is the pinned key, or the callback in force said yes. *)
+   replaces known_hosts), it is the pinned key, or the callback in force said yes to
+   (dialled host, fingerprint of k). *)
 Definition justified (c : ssh_cfg) (o : ssh_oracle) (h : how) : Prop :=
   let k := o_server_key o in
   match h with
@@ -37,13 +52,13 @@ Definition justified (c : ssh_cfg) (o : ssh_oracle) (h : how) : Prop :=
       c_pin c = PinAbsent /\ (s = HHost \/ s = HHostPort) /\
       (In (HHost, k) (c_known_hosts c) \/ In (HHostPort, k) (c_known_hosts c))
   | ByPinned => c_pin c = PinKey k
-  | ByCallback => cb_verdict c o = true
+  | ByCallback => callback_accepts c o = true
   end.
 
 (* no reason exists *)
 Definition unjustified (c : ssh_cfg) (o : ssh_oracle) : Prop :=
   let k := o_server_key o in
-  cb_verdict c o = false /\
+  callback_accepts c o = false /\
   match c_pin c with
   | PinKey p => p <> k
   | PinBad => True
